@@ -5,7 +5,8 @@ From AS Require Import Base.Str Http.Cookie Url.Escape Oidc.Types Oidc.Prog Oidc
 From AS Require Export Oidc.Spec Oidc.Monitors.
 
 Record step := { s_now : Z; s_req : request; s_trace : list (eff * ans); s_resp : outcome }.
-Record hist := { h_cfg : cfg; h_db : list (string * idtok); h_secrets : list string; h_steps : list step }.
+Record hist := { h_cfg : cfg; h_db : list (string * idtok); h_secrets : list string; h_abs : Z; h_idle : Z (* session timeouts of the store, ns; 0 = none *);
+                 h_steps : list step }.
 
 Definition db_of (l : list (string * idtok)) : tokdb :=
   fun s => match lookup s l with Some d => d | None => unparsable end.
